@@ -342,7 +342,7 @@ func (corruptScen) Exec(w *World, cc any, prop string) *Result {
 		for k := 0; k < 2; k++ {
 			obs := w.Invoke(Invocation{Args: []string{"--show"}, Cwd: w.Proj, Env: w.BaseEnv(), Inv: k, Sched: Sched{Policy: "fifo"}, Faults: f})
 			res.Ops++
-			res.event("show failed=%v err=%s out=%s", obs.Failed, shortHash(obs.ErrText), outcomeStr(obs.Out))
+			res.event("show failed=%v err=%s out=%s", obs.Failed, normHash(obs.ErrText), outcomeStr(obs.Out))
 			switch {
 			case obs.Out.Panic != "":
 				res.violate("C08", "no-panic", "cli", "`spok --show` on %q panicked: %s", short(src, 200), short(obs.Out.Panic, 300))
